@@ -26,14 +26,14 @@ type model struct {
 }
 
 func (m model) mask() uint32 {
-	return uint32(m.stored[0]) | uint32(m.stored[1])<<6 | uint32(m.stored[2])<<12 | uint32(m.stored[3])<<18
+	return uint32(m.stored[0]) | uint32(m.stored[1])<<8 | uint32(m.stored[2])<<16 | uint32(m.stored[3])<<24
 }
 
 func modelFrom(live int, mask uint32) model {
 	var m model
 	m.live = live
 	for k := 0; k < 4; k++ {
-		m.stored[k] = uint8(mask >> (6 * k) & 0x3f)
+		m.stored[k] = uint8(mask >> (8 * k))
 	}
 	return m
 }
@@ -48,7 +48,7 @@ func (m *model) apply(c *config, op int) {
 			m.stored[k] >>= nOff
 		}
 	default:
-		m.stored[op/nLoc] |= 1 << (op % nLoc)
+		m.stored[op/c.nLoc()] |= 1 << (op % c.nLoc())
 	}
 }
 
@@ -56,7 +56,7 @@ func (m model) describe(c *config) string {
 	var parts []string
 	for k := range c.Keys {
 		var ls []string
-		for l := 0; l < nLoc; l++ {
+		for l := 0; l < nLocMax; l++ {
 			if m.stored[k]&(1<<l) != 0 {
 				ls = append(ls, locName(l))
 			}
@@ -201,7 +201,7 @@ func step(in *instance, m *model, op int, before []getRes) (out stepOut) {
 		out.outcome = fmt.Sprintf("release:removed%d:kept%d", removed, kept)
 		out.nontrivial = removed > 0
 	default:
-		pk, pl := op/nLoc, op%nLoc
+		pk, pl := op/c.nLoc(), op%c.nLoc()
 		var devs []string
 		devClass := "-"
 		nDev := 0
